@@ -74,6 +74,37 @@ def run(ctx, broken):
         for v in ([0, 1, rng.below(1 << 16), rng.fe() % (1 << 250)] if ctx.tier == "quick" else [0, 1, 5, rng.below(1 << 16), rng.fe() % (1 << 250)]):
             specs.append(("w %s;trunc %d $0" % (hx(v), n), 0, v, ["truncate", "alias-x-plus-r"]))
     cs += full_alias_cases(ctx, specs)
+    # NON-BOOLEAN bit in a decomposition (layout-driven): bit i := 2 (and for the top bit also 3, 1/2^k-style values) with the
+    # value chosen so that the weighted sum still equals the input and all accumulators follow the forged bits: only the
+    # boolean constraint of THAT bit rejects it. Every bit position of small widths, the top / bottom / a random bit of all others.
+    nb = []
+    widths_nb = ([1, 2, 3, 4, 5, 7, 8, 9, 31, 63, 64, 65, 127, 251, 252, 253, 254] if ctx.tier == "quick" else list(range(1, 255)))
+    for n in widths_nb:
+        for i in sorted(set([0, n - 1, rng.below(n)] if n > 9 else range(n))):
+            for forged_bit in ((2,) if i < n - 1 else (2, 3)):
+                bits = [rng.below(2) for _ in range(n)]
+                bits[i] = forged_bit
+                v = sum(b << j for j, b in enumerate(bits)) % R
+                nb.append((n, i, bits, v))
+    dumps = ctx.impl(["dump w %s;decomp %d $0" % (hx(v), n) for (n, i, bits, v) in nb])
+    for (n, i, bits, v), dmp in zip(nb, dumps):
+        if " W " not in dmp:
+            continue
+        W = dmp.split(" W ")[1].split(" P ")[0].split(",")
+        p = Prog(); x = p.w(v)
+        first = p.nwit0 + 1
+        if len(W) - first != 2 * n:
+            continue                     # another layout: the correspondence reports it
+        p.decomp(n, x)
+        acc = 0
+        for j in range(n):
+            p.op("setw #%d %s" % (first + 2 * j, hx(bits[j])))
+            acc = (acc + (bits[j] << j)) % R
+            p.op("setw #%d %s" % (first + 2 * j + 1, hx(acc)))
+        p.sat = True; p.unsat()
+        p.tags = ["decomposition", "non-boolean-bit", "top-bit" if i == n - 1 else "inner-bit"]
+        c_ = p.case(); c_["rv"] = None          # the returned witnesses are overwritten on purpose
+        cs.append(c_)
     r.run(cs)
     # ---- the N in {255,256} alias (model theorem decomp_alias_255): replay end-to-end on the implementation
     from props.common import parse, impl_verdict
@@ -105,7 +136,7 @@ def run(ctx, broken):
     st["evaluations"] += len(alias_lines)
     st["exhaustive_in_width"] = True
     st["rule"] = ("component_truncate for every N 0..=254 and component_decomposition for every N 1..=256 (layout exhaustive); "
-                  "values 0, r-1, 2^N-1, 2^N, random, random below 2^N; truncation output forged to the (x+r) alias (expect unsat); COMPLETE x+r alias assignments (low, high, all "
+                  "values 0, r-1, 2^N-1, 2^N, random, random below 2^N; truncation output forged to the (x+r) alias (expect unsat); decomposition with ONE non-boolean bit (2 or 3) at the top / bottom / a random position and accumulators following the forged bits; COMPLETE x+r alias assignments (low, high, all "
                   "range accumulators and guard helper wires consistent, generated by the implementation's own witness generator "
                   "under a host-view override) at limb-boundary and extreme widths (all widths in thorough); "
                   "decomposition bits forged to the bits of x+r for N in {255,256} (replayed end-to-end). Each case: layout/witness "
